@@ -31,6 +31,8 @@ struct OracleOpts
     //! recorded C08 regime (substeps of more than 1 rad pass the chord test)
     double field_tesla[3]{0, 0, 0};
     double field_delta_chord{0};
+    int field_max_nsteps{100};
+    double field_minimum_step{1e-5};
 };
 
 void check_history(History const& h,
